@@ -157,6 +157,11 @@ class C18(Check):
                         js.append(dict(kind='long', shape=shape, mode=mode, p=p, swap=swap, n1=0, n2=0))
             if tier != 'quick':
                 js.append(dict(kind='long', shape=shape, mode='FRECHET', p='inf', swap=False, n1=0, n2=0))
+        # value-kind probes: the exponent p given as a numpy scalar / a Python float
+        for pk in ('npint', 'npfloat', 'float'):
+            for pv in (1, 2):
+                for mode in ('DTW', 'FDTW'):
+                    js.append(dict(kind='long', shape='fan', mode=mode, p=pv, pk=pk, swap=False, n1=0, n2=0, fixed=(pv == 2)))      # p = 2: fixed heights (squares of symbolic costs are non-linear)
         return js
 
     def patches(self, job):
@@ -195,13 +200,18 @@ class C18(Check):
     def _run(self, job, t1, t2, dim):
         cmp_ = sys.modules[CMP]
         p = float('inf') if job['p'] == 'inf' else job['p']
+        if job.get('pk'):
+            import numpy as np
+            p = {'npint': np.int64, 'npfloat': np.float64, 'float': float}[job['pk']](p)
         mode = dict(DTW=cmp_.MODE_MATCHING_DTW, FDTW=cmp_.MODE_MATCHING_FDTW, FRECHET=cmp_.MODE_MATCHING_FRECHET)[job['mode']]
         return cmp_.match(t1, t2, mode=mode, p=p, dim=dim, verbose=False, plot=False)
 
     def _long_inputs(self, eng, job, concrete=None):
         h1, h2, k1, k2 = LONG[job['shape']]
         h1, h2 = list(h1), list(h2)
-        if concrete is None:
+        if job.get('fixed'):
+            h1[k1], h2[k2] = h1[k1] + 0.25, h2[k2] - 0.125
+        elif concrete is None:
             h1[k1] = eng.real('a', h1[k1] - 0.375, h1[k1] + 0.375)
             h2[k2] = eng.real('b', h2[k2] - 0.375, h2[k2] + 0.375)
         else:
